@@ -1158,7 +1158,8 @@ func handleAction(c *webClient, a any) error {
 		}
 
 	case pushClientAction:
-		if a.group != c.group.Name() {
+		// c.group is nil if we have left the group in the meantime
+		if c.group == nil || a.group != c.group.Name() {
 			log.Printf("got client for wrong group")
 			return nil
 		}
